@@ -34,6 +34,10 @@ pub struct Plan {
     pub duration_ms: u64,
     pub full_node: bool,
     pub sync_retry_ms: u64,
+    /// (node, ms): nodes whose consensus starts late (their round timers are out of phase).
+    pub boot_delays: Vec<(usize, u64)>,
+    /// When > 0: proposals take this long (they are the big messages), everything else 1..10 ms.
+    pub propose_delay_ms: u64,
 }
 
 fn faults_tolerated(stakes: &[u32]) -> u64 {
@@ -96,10 +100,28 @@ pub fn plan(class: &str, seed: u64, p: &Params) -> Plan {
         duration_ms,
         full_node: p.get_u64("full_node").unwrap_or(0) == 1,
         sync_retry_ms: p.get_u64("sync_retry_ms").unwrap_or(5_000),
+        boot_delays: Vec::new(),
+        propose_delay_ms: 0,
     };
     let f_nodes = pick_faulty(&mut rng, &stakes, n);
     match class {
         "s1" => {}
+        "s2b" => {
+            // The leader of round 1 never starts and one needed node boots most of a timeout late: the
+            // first TC completes shortly before the other nodes' timers expire again.
+            let victim = 1 % n;
+            if stakes[victim] as u64 <= faults_tolerated(&stakes) {
+                plan.crashes.push((victim, 0));
+            }
+            let live: Vec<usize> = (0..n).filter(|x| *x != victim).collect();
+            let late = live[rng.gen_range(0, live.len())];
+            let frac = rng.gen_range(80, 99);
+            plan.boot_delays.push((late, timeout_ms * frac / 100));
+            // asymmetric delays in half of the runs: proposals up to timeout/10, other messages fast
+            if rng.gen_bool(0.5) {
+                plan.propose_delay_ms = rng.gen_range(timeout_ms / 20, timeout_ms / 10 + 1);
+            }
+        }
         "s2" => {
             // up to f crashed: never started, or crashing at a random time in the first third.
             let k = rng.gen_range(1, f_nodes.len().max(1) + 1).min(f_nodes.len());
@@ -166,6 +188,18 @@ pub fn plan(class: &str, seed: u64, p: &Params) -> Plan {
         }
         other => panic!("unknown cluster class {}", other),
     }
+    // Late boots (s2 / s3): one or two live nodes start their consensus a fraction of a timeout after
+    // the others, so that round timers are out of phase from the beginning.
+    if (class == "s2" || class == "s3") && rng.gen_bool(0.5) {
+        let crashed: Vec<usize> = plan.crashes.iter().map(|x| x.0).collect();
+        let live: Vec<usize> = (0..n).filter(|x| !crashed.contains(x)).collect();
+        for _ in 0..rng.gen_range(1, 3) {
+            let node = live[rng.gen_range(0, live.len())];
+            if !plan.boot_delays.iter().any(|(x, _)| *x == node) {
+                plan.boot_delays.push((node, rng.gen_range(timeout_ms / 4, timeout_ms * 3 / 2)));
+            }
+        }
+    }
     plan
 }
 
@@ -185,6 +219,7 @@ pub fn execute(plan: &Plan, seed: u64) -> Outcome {
         cfg.timeout_ms = plan.timeout_ms;
         cfg.full_node = plan.full_node;
         cfg.sync_retry_ms = plan.sync_retry_ms;
+        cfg.boot_delays = plan.boot_delays.clone();
         cfg.not_started = plan.crashes.iter().filter(|(_, at)| *at == 0).map(|(x, _)| *x).collect();
         let cluster = Cluster::start(cfg).await;
         {
@@ -194,6 +229,17 @@ pub fn execute(plan: &Plan, seed: u64) -> Outcome {
             c.slow_prob = plan.slow_prob;
             c.slow_lo_ms = plan.hi_ms;
             c.slow_hi_ms = plan.slow_hi_ms;
+            if plan.propose_delay_ms > 0 {
+                let pd = plan.propose_delay_ms;
+                c.frame_hook = Some(Box::new(move |ctx, rng| {
+                    if ctx.route.svc != crate::world::SVC_CONSENSUS {
+                        return None;
+                    }
+                    // bincode enum tag 0 = ConsensusMessage::Propose
+                    let is_propose = ctx.dir == network::simnet::Dir::ToServer && ctx.frame.len() >= 4 && ctx.frame[..4] == [0, 0, 0, 0];
+                    Some(network::simnet::FrameDecision::Deliver { delay_ms: if is_propose { pd } else { rng.gen_range(1, 11) } })
+                }));
+            }
         }
         // Timeline of fault events.
         let mut timeline: Vec<(u64, String, Vec<usize>)> = Vec::new();
@@ -347,6 +393,12 @@ pub fn check_c06(plan: &Plan, out: &Outcome, r: &mut Report) {
     }
     if plan.gst_ms > 0 {
         r.sit("C06:async_then_stable");
+    }
+    if !plan.boot_delays.is_empty() {
+        r.sit("C06:late_boot_timers_out_of_phase");
+    }
+    if plan.propose_delay_ms > 0 {
+        r.sit("C06:proposals_slower_than_other_messages");
     }
 }
 
